@@ -169,6 +169,14 @@ Section Inv.
     - intros E; apply FR; eapply frame_image_solve; eassumption.
     - intros E; injection E as <-. unfold add_wavelength.
       destruct (k_c01_add_wavelength _ _ _ _ _ _ _ _). unfold stops; cbn [surfs]. auto.
+    - unfold add_ready. destruct (_ || _); [discriminate|].
+      destruct (cfg_material l _ _) as [[[pre post] mats']|]; [|discriminate].
+      destruct (cfg_geometry _ _ _ _) as [[[g R'] k'] c'].
+      intros E; injection E as <-. intros H. unfold stops in *. cbn [surfs].
+      rewrite map_insert. rewrite count_insert. cbn [s_stop].
+      destruct stop.
+      + rewrite map_map. cbn [with_stop s_stop]. rewrite count_all_false. lia.
+      + lia.
   Qed.
 
   Lemma run_inv (P : lens -> Prop) :
@@ -249,6 +257,10 @@ Section Inv.
       destruct (k_c01_add_wavelength _ _ _ _ _ _ _ _) as [vals ps'] eqn:EK.
       destruct (add_wavelength_kernel _ _ _ _ _ _ _ HL HC EK) as (A & B & _).
       unfold waves_ok; cbn [waves prims]. split; [exact A|right; exact B].
+    - unfold add_ready. destruct (_ || _); [discriminate|].
+      destruct (cfg_material l _ _) as [[[pre post] mats']|]; [|discriminate].
+      destruct (cfg_geometry _ _ _ _) as [[[g R'] k'] c'].
+      intros E; injection E as <-. auto.
   Qed.
 
   (** Exactly one wavelength is primary after any history that added at least one wavelength *)
